@@ -5,6 +5,7 @@ import (
 	"bytes"
 	"fmt"
 	"reflect"
+	"strings"
 	"testing"
 
 	"github.com/SAP/go-dblib/dsn"
@@ -61,6 +62,12 @@ func normP(p rc.P) string {
 }
 
 func dump(v reflect.Value) string {
+	if eed, ok := v.Interface().(rc.EED); ok {
+		// the library's reader strips one trailing newline of the message text
+		eed.Msg = strings.TrimSuffix(eed.Msg, "\n")
+		type plain rc.EED
+		return dump(reflect.ValueOf(plain(eed)))
+	}
 	if cell, ok := v.Interface().(rc.Cell); ok {
 		// values are compared by their wire form (a NULL loses width and precision)
 		enc, err := rc.Encode(cell.V)
@@ -462,7 +469,12 @@ func TestCapabilityBitsExhaustive(t *testing.T) {
 type loginCase struct {
 	Host, User, Pass, App, Serv, Lang, Charset string
 	Encrypt                                    bool
+	// EncryptID, if non-zero, is the message id put into LoginConfig.Encrypt (any TDSMsgId is
+	// accepted there); only the four password-encryption ids make the record an encrypted one
+	EncryptID int
 }
+
+var encryptIDs = map[int]byte{1: 0x01, 14: 0x01 | 0x20, 30: 0x01 | 0x20 | 0x80, 35: 0x01 | 0x20 | 0x80}
 
 func runLogin(c loginCase) (f *vh.Failure) {
 	defer func() {
@@ -478,6 +490,10 @@ func runLogin(c loginCase) (f *vh.Failure) {
 	conf.Hostname, conf.AppName, conf.ServName, conf.Language, conf.CharSet = c.Host, c.App, c.Serv, c.Lang, c.Charset
 	if !c.Encrypt {
 		conf.Encrypt = 0
+	}
+	if c.EncryptID != 0 {
+		conf.Encrypt = tds.TDSMsgId(c.EncryptID)
+		_, c.Encrypt = encryptIDs[c.EncryptID]
 	}
 	over := false
 	for _, s := range []string{c.Host, c.User, c.App, c.Serv, c.Lang, c.Charset} {
@@ -528,6 +544,9 @@ func runLogin(c loginCase) (f *vh.Failure) {
 	if c.Encrypt {
 		wantSec = 0x1 | 0x20 | 0x80
 	}
+	if c.EncryptID != 0 {
+		wantSec = encryptIDs[c.EncryptID]
+	}
 	if lr.SecLogin != wantSec {
 		return vh.Failf("C06/login-record", "seclogin flags %#x, want %#x", lr.SecLogin, wantSec)
 	}
@@ -572,8 +591,11 @@ func TestLoginRecord(t *testing.T) {
 			}
 			e.Do(loginCase{Host: mk(n), User: mk(n), Pass: mk(n), App: mk(n), Serv: mk(n), Lang: mk(n), Charset: mk(n), Encrypt: n%2 == 0})
 		}
+		for id := 1; id <= 40; id++ {
+			e.Do(loginCase{Host: "h", User: "u", Pass: "secret-pw", App: "a", Serv: "s", Lang: "l", Charset: "c", EncryptID: id})
+		}
 		vh.Sample("login-record", loginCase{Host: "host", User: "sa", Pass: "secret", App: "app", Serv: "srv", Lang: "us_english", Charset: "utf8", Encrypt: true})
-		e.Done("every login field with every length 0..31, singly and all together")
+		e.Done("every login field with every length 0..31, singly and all together; every message id 1..40 as LoginConfig.Encrypt")
 	}
 	gen := func(rt *rapid.T) loginCase {
 		s := func(l string) string { return pkggen.Str(rt, l, 31) }
